@@ -23,6 +23,21 @@ def static_obligations(repo):
     ok = len(calls) == 1 and imported[calls[0].func.id] == ('p_tqdm', 'p_imap')
     out.append((f"{WC}::_WorkflowCoordinator.execute::static::parallel_map_is_the_ordered_p_imap", ok,
                 [(imported[c.func.id]) for c in calls]))
+    # the whole query list goes to the coordinator in ONE execute call (rows = map(F, queries); additional files are opened once per call)
+    with open(os.path.join(repo, 'src/program.py')) as f:
+        pt = ast.parse(f.read())
+    run = [fn for c in pt.body if isinstance(c, ast.ClassDef) and c.name == 'Program' for fn in c.body if isinstance(fn, ast.FunctionDef) and fn.name == 'run']
+    execs, in_loop = [], False
+    if run:
+        for n in ast.walk(run[0]):
+            if isinstance(n, ast.Call) and isinstance(n.func, ast.Attribute) and n.func.attr == 'execute':
+                execs.append(n)
+        loops = [n for n in ast.walk(run[0]) if isinstance(n, (ast.For, ast.While, ast.ListComp, ast.GeneratorExp, ast.SetComp, ast.DictComp))]
+        in_loop = any(e in list(ast.walk(l)) for l in loops for e in execs)
+    whole = len(execs) == 1 and len(execs[0].args) == 2 and isinstance(execs[0].args[1], ast.Attribute) and execs[0].args[1].attr == 'queryMaps' \
+        and isinstance(execs[0].args[1].value, ast.Name) and execs[0].args[1].value.id == 'self'
+    out.append(("src/program.py::Program.run::static::all_queries_go_to_the_coordinator_in_one_execute_call", bool(run) and whole and not in_loop,
+                dict(execute_calls=len(execs), inside_a_loop=in_loop), 'argument'))
     # per-run service objects must not carry state between queries: attribute stores outside __init__
     allowed = {('AlignerEngine', 'iteration')}
     services = ['src/workflow_coordinator.py', 'src/multi_pass_workflow_coordinator.py', 'src/alignment/aligner.py', 'src/alignment/alignment_position_scorer.py',
@@ -99,8 +114,41 @@ def run_cli(repo, d, cpus, perturb, mode, tag):
     return p.returncode, p.stderr[-400:], files
 
 
+def many_queries_set(seed, n):
+    """one small reference and n short queries (windows of it, a third with an indel so that the second pass has work): scale, not difficulty"""
+    rnd = random.Random(seed)
+    pos, length = pl.gen_reference(rnd, 70)
+    queries = []
+    for q in range(n):
+        k = rnd.randint(12, 16)
+        a = rnd.randint(0, len(pos) - k - 1)
+        lab = [p - pos[a] for p in pos[a:a + k]]
+        if q % 3 == 0:
+            cut = rnd.randint(5, k - 5)
+            lab = lab[:cut] + [p + 20000 for p in lab[cut:]]
+        queries.append((q + 1, lab[-1] + 100, lab))
+    return [(1, length, pos)], queries
+
+
 def run_case(case):
     repo, seed, mode, cpu_list = case
+    if mode.startswith('many:'):
+        # results must not depend on how many queries one worker (or one block of work) gets: several hundred queries, 1 vs 2 workers
+        mode = mode.split(':')[1]
+        refs, queries = many_queries_set(seed, 300)
+        d = pl.make_workdir(refs, queries)
+        bad = []
+        try:
+            rc0, err0, base = run_cli(repo, d, 1, 0, mode, 'base')
+            rc1, err1, two = run_cli(repo, d, cpu_list[0], 0, mode, 'v0')
+            if rc0 != 0 or rc1 != 0:
+                bad.append(('cli_run_succeeds', dict(error=err0 or err1)))
+            elif two != base:
+                bad.append(('output_identical_for_every_worker_count_and_repetition',
+                            dict(cpus=cpu_list[0], queries=len(queries), files=[s for s in set(two) | set(base) if two.get(s) != base.get(s)])))
+        finally:
+            pl.cleanup(d)
+        return (seed, 'many:' + mode), bad, 2
     refs, queries, _ = pl.gen_set(seed, n_queries=(10, 16), weights=[2, 2, 1, 3, 3, 1])
     # a query whose two unaligned flanks are identical gives two second-pass candidates of exactly equal confidence
     rnd = random.Random(seed)
@@ -135,11 +183,12 @@ def run_case(case):
 
 def bounded(repo, tier, seed):
     if tier == 'quick':
-        cases = [(repo, seed * 4001 + i, m, [2, 3, 8, 16]) for i, m in enumerate(['best', 'all', 'best'])]
+        cases = [(repo, seed * 4001 + i, m, [2, 3, 8, 16]) for i, m in enumerate(['best', 'all', 'best'])] + [(repo, seed * 4001 + 77, 'many:all', [2])]
     else:
-        cases = [(repo, seed * 4001 + i, m, [2, 3, 4, 8, 12, 16]) for i, m in enumerate(['best', 'all', 'joined', 'separate'] * 5)]
+        cases = [(repo, seed * 4001 + i, m, [2, 3, 4, 8, 12, 16]) for i, m in enumerate(['best', 'all', 'joined', 'separate'] * 5)] + \
+                [(repo, seed * 4001 + 77 + i, 'many:' + m, [c]) for i, (m, c) in enumerate([('all', 2), ('separate', 3), ('joined', 4), ('best', 2)])]
     from concurrent.futures import ThreadPoolExecutor
-    with ThreadPoolExecutor(max_workers=3) as ex:
+    with ThreadPoolExecutor(max_workers=4) as ex:
         res = list(ex.map(run_case, cases))
     viol = {}
     tot = 0
@@ -150,12 +199,13 @@ def bounded(repo, tier, seed):
             viol.setdefault(key, dict(key=key, blame='src/workflow_coordinator.py::_WorkflowCoordinator.execute', input=dict(seed=case[0], mode=case[1]),
                                       observed=detail, required='C09 statement'))
     return result(tot, tot, "real CLI runs (separate processes, real p_tqdm worker pools) on generated sets incl. a query with two identical flanks (equal-confidence "
-                            "second-pass candidates): --cpus 1 (baseline and repetition), 2, 3, 8, 16, plus runs whose per-query workers sleep a seeded random "
+                            "second-pass candidates): --cpus 1 (baseline and repetition), 2, 3, 8, 16, one set of 300 short queries with 1 and 2 workers, plus runs whose per-query workers sleep a seeded random "
                             "0-30 ms (perturbed completion order); all XMAP files compared byte-wise except the '# coma' / '# hostname' header lines; "
                             "evaluations = CLI runs", [dict(seed=cases[0][1], mode=cases[0][2])], list(viol.values())[:5], exhaustive=False,
                   bounds=f"{len(cases)} sets x {len(cases[0][3]) + 4} runs")
 
 
 def replay(repo, rp):
-    case, bad, _ = run_case((repo, rp['input']['seed'], rp['input']['mode'], [2, 3, 8, 16]))
+    mode = rp['input']['mode']
+    case, bad, _ = run_case((repo, rp['input']['seed'], mode, [2] if mode.startswith('many:') else [2, 3, 8, 16]))
     return (not bad), bad[:3]
